@@ -6,6 +6,7 @@ import QuicProofs.Props.C05VarInt
 -/
 namespace Quic.Proofs.DcPackets
 open Quic Quic.Codec Quic.Dc.Packets
+open Quic.Dc
 
 /-! ### primitive parsers on emitted bytes -/
 
@@ -421,5 +422,346 @@ theorem roundtrip_stream (i : StreamIn) (wf : StreamWF i) (rest : List Nat) :
     take_append_len, drop_append_len, t1, t2]
   refine ⟨_, rfl, ?_, rfl⟩
   simp only [StreamView.toIn, hkp, hrec, Nat.add_sub_cancel_left]
+
+/-! ### what a successful decode consumed -/
+
+theorem split4 (b : List Nat) (n m k : Nat) :
+    b = b.take n ++ (b.drop n).take m ++ ((b.drop n).drop m).take k ++ ((b.drop n).drop m).drop k := by
+  rw [List.append_assoc, List.append_assoc, List.take_append_drop, List.take_append_drop, List.take_append_drop]
+
+theorem pSkip_ok {n : Nat} {b r : List Nat} (h : pSkip n b = .ok r) : n ≤ b.length ∧ r = b.drop n := by
+  unfold pSkip at h
+  split at h
+  · cases h
+  · simp only [Except.ok.injEq] at h
+    exact ⟨by omega, h.symm⟩
+
+theorem pBytes_ok {n : Nat} {b x r : List Nat} (h : pBytes n b = .ok (x, r)) :
+    n ≤ b.length ∧ x = b.take n ∧ r = b.drop n := by
+  unfold pBytes at h
+  split at h
+  · cases h
+  · simp only [Except.ok.injEq, Prod.mk.injEq] at h
+    exact ⟨by omega, h.1.symm, h.2.symm⟩
+
+theorem decodeStream_consumes (b rest : List Nat) (v : StreamView) (h : decodeStream b = .ok (v, rest)) :
+    b = v.header ++ v.payload ++ v.authTag ++ rest := by
+  unfold decodeStream at h
+  simp only [bind, Except.bind, pure, Except.pure] at h
+  repeat' split at h
+  all_goals try (cases h; done)
+  simp only [Except.ok.injEq, Prod.mk.injEq] at h
+  obtain ⟨hv, hr⟩ := h
+  rw [← hv, ← hr]
+  exact split4 _ _ _ _
+
+theorem split3 (b : List Nat) (n k : Nat) :
+    b = b.take n ++ (b.drop n).take k ++ (b.drop n).drop k := by
+  rw [List.append_assoc, List.take_append_drop, List.take_append_drop]
+
+theorem decodeControl_consumes (b rest : List Nat) (v : ControlView) (h : decodeControl b = .ok (v, rest)) :
+    b = v.header ++ v.authTag ++ rest := by
+  unfold decodeControl at h
+  simp only [bind, Except.bind, pure, Except.pure] at h
+  repeat' split at h
+  all_goals try (cases h; done)
+  simp only [Except.ok.injEq, Prod.mk.injEq] at h
+  obtain ⟨hv, hr⟩ := h
+  rw [← hv, ← hr]
+  exact split3 _ _ _
+
+theorem decodeDatagram_consumes (b rest : List Nat) (v : DatagramView) (h : decodeDatagram b = .ok (v, rest)) :
+    b = v.header ++ v.payload ++ v.authTag ++ rest ∧ v.authTag.length = tagLen := by
+  unfold decodeDatagram at h
+  simp only [bind, Except.bind, pure, Except.pure] at h
+  repeat' split at h
+  all_goals try (cases h; done)
+  rename_i _ _ _ _ _ _ _ _ _ p1 hp1 _ p2 hp2
+  simp only [Except.ok.injEq, Prod.mk.injEq] at h
+  obtain ⟨hv, hr⟩ := h
+  obtain ⟨l1, x1, r1⟩ := pBytes_ok hp1
+  obtain ⟨l2, x2, r2⟩ := pBytes_ok hp2
+  rw [← hv, ← hr]
+  simp only [x1, x2, r1, r2]
+  refine ⟨split4 _ _ _ _, ?_⟩
+  rw [List.length_take]
+  rw [r1] at l2
+  omega
+
+theorem decodeSecret_consumes (k : SecretKind) (b rest : List Nat) (v : SecretView) (h : decodeSecret k b = .ok (v, rest)) :
+    b = v.header ++ v.authTag ++ rest ∧ v.authTag.length = tagLen ∧ v.kind = k := by
+  unfold decodeSecret at h
+  cases hp : pSecretValue k b with
+  | error e => rw [hp] at h; cases h
+  | ok x =>
+    obtain ⟨⟨t, id, wv, q, val⟩, r⟩ := x
+    rw [hp] at h
+    simp only [] at h
+    cases hq : pBytes tagLen (b.drop (b.length - r.length)) with
+    | error e => rw [hq] at h; cases h
+    | ok y =>
+      obtain ⟨tg, rest'⟩ := y
+      rw [hq] at h
+      simp only [Except.ok.injEq, Prod.mk.injEq] at h
+      obtain ⟨hv, hr⟩ := h
+      obtain ⟨l1, x1, r1⟩ := pBytes_ok hq
+      rw [← hv, ← hr]
+      simp only [x1, r1]
+      refine ⟨split3 _ _ _, ?_, trivial⟩
+      rw [List.length_take]
+      omega
+
+/-! ### the declarative field tables emit exactly the encoders' bytes -/
+
+theorem streamTagBits_sum (kp cd fin ah sq rec : Bool) :
+    streamTagBits kp cd fin ah sq rec
+      = Spec.bit sq 0x20 + Spec.bit rec 0x10 + Spec.bit cd 0x08 + Spec.bit fin 0x04 + Spec.bit ah 0x02 + Spec.bit kp 0x01 := by
+  cases kp <;> cases cd <;> cases fin <;> cases ah <;> cases sq <;> cases rec <;> decide
+
+theorem datagramTagBits_sum (conn ah ack kp : Bool) :
+    datagramTagBits conn ah ack kp = 0x40 + Spec.bit ack 0x08 + Spec.bit conn 0x04 + Spec.bit ah 0x02 + Spec.bit kp 0x01 := by
+  cases conn <;> cases ah <;> cases ack <;> cases kp <;> decide
+
+theorem controlTagBits_sum (sq sid ah : Bool) :
+    controlTagBits sq sid ah = 0x50 + Spec.bit sq 0x08 + Spec.bit sid 0x04 + Spec.bit ah 0x02 := by
+  cases sq <;> cases sid <;> cases ah <;> decide
+
+theorem emit_optNum (n : String) (o : Option Nat) : Spec.emitField ⟨n, .varint⟩ (Spec.optNum o) = encOptVarint o := by
+  cases o <;> rfl
+
+theorem emit_cond_varint (n : String) (c : Bool) (x : Nat) :
+    Spec.emitField ⟨n, .varint⟩ (Spec.cond c (.num x)) = if c then VarInt.encode x else [] := by
+  cases c <;> rfl
+
+theorem emit_cond_u32 (n : String) (c : Bool) (x : Nat) :
+    Spec.emitField ⟨n, .u32⟩ (Spec.cond c (.num x)) = if c then beBytes 4 x else [] := by
+  cases c <;> rfl
+
+theorem emit_cond_bytes (n : String) (c : Bool) (x : List Nat) :
+    Spec.emitField ⟨n, .bytes⟩ (Spec.cond c (.bytes x)) = if c then x else [] := by
+  cases c <;> rfl
+
+theorem streamId_spec (s : StreamId) : s.queueId * 4 + Spec.bit s.reliable 2 + Spec.bit s.bidi 1 = s.toVarint := rfl
+
+theorem encode_eq_spec_stream (i : StreamIn) : Spec.emit (Spec.stream i) = encodeStream i := by
+  unfold encodeStream encStreamHeader encStreamFixed
+  rw [streamTagOf_eq, streamTagBits_sum]
+  simp only [Spec.stream, Spec.emit, emit_optNum, emit_cond_varint, emit_cond_u32, streamId_spec]
+  simp only [Spec.emitField, encCreds, List.append_assoc, List.cons_append, List.nil_append, List.append_nil,
+    decide_eq_true_eq, beBytes]
+
+theorem encode_eq_spec_datagram (i : DatagramIn) : Spec.emit (Spec.datagram i) = encodeDatagram i := by
+  unfold encodeDatagram encDatagramHeader encDatagramFixed
+  rw [datagramTagOf_eq, datagramTagBits_sum]
+  simp only [Spec.datagram, Spec.emit, emit_optNum, emit_cond_varint, emit_cond_bytes]
+  cases hn : i.nect <;>
+  simp [Spec.emitField, encCreds, encAckFields, encOptVarint, List.append_assoc]
+
+theorem emit_optSid (n : String) (o : Option StreamId) :
+    Spec.emitField ⟨n, .varint⟩ (Spec.optStreamId o) = encOptStreamId o := by
+  cases o <;> rfl
+
+theorem encode_eq_spec_control (i : ControlIn) : Spec.emit (Spec.control i) = encodeControl i := by
+  unfold encodeControl encControlHeader encControlFixed
+  rw [controlTagOf_eq, controlTagBits_sum]
+  simp only [Spec.control, Spec.emit, emit_optNum, emit_cond_varint, emit_optSid]
+  simp only [Spec.emitField, encCreds, List.append_assoc, List.cons_append, List.nil_append, List.append_nil,
+    decide_eq_true_eq]
+
+theorem encode_eq_spec_secret (i : SecretIn) : Spec.emit (Spec.secret i) = encodeSecret i := by
+  unfold encodeSecret encSecretHeader
+  cases hk : i.kind <;> cases hq : i.queueId <;>
+    simp [Spec.secret, Spec.emit, Spec.emitField, Spec.optNum, Spec.bit, secretTagOf, SecretKind.tag, SecretKind.hasValue,
+      encOptVarint, SecretTag.unknownPathSecret, SecretTag.staleKey, SecretTag.replayDetected, SecretTag.hasQueueId, hk, hq]
+
+/-! ### every consumed byte is an input of the primitive call -/
+
+/-- the primitive call a receiver makes for a datagram that is exactly one packet -/
+def datagramCallOfWire (b : List Nat) : Option CryptoCall :=
+  match decodeDatagram b with
+  | .ok (v, []) => (datagramOpenCall v).toOption
+  | _ => none
+
+def controlCallOfWire (b : List Nat) : Option CryptoCall :=
+  match decodeControl b with
+  | .ok (v, []) => some (controlOpenCall v)
+  | _ => none
+
+def secretCallOfWire (k : SecretKind) (b : List Nat) : Option CryptoCall :=
+  match decodeSecret k b with
+  | .ok (v, []) => some (secretOpenCall v)
+  | _ => none
+
+/-- `retx = false`: only packets whose retransmission offset is zero -/
+def streamCallOfWire (retx : Bool) (b : List Nat) : Option CryptoCall :=
+  match decodeStream b with
+  | .ok (v, []) => if retx || v.origPn == v.pn then (streamOpenCall v).toOption else none
+  | _ => none
+
+theorem datagram_call_covers (b : List Nat) (c : CryptoCall) (h : datagramCallOfWire b = some c) :
+    c.aad ++ c.body ++ c.tag = b := by
+  unfold datagramCallOfWire at h
+  split at h
+  · rename_i v hd
+    have hc := (decodeDatagram_consumes b [] v hd).1
+    unfold datagramOpenCall at h
+    split at h
+    · simp [Except.toOption] at h
+    · simp only [Except.toOption, Option.some.injEq] at h
+      rw [← h, hc]; simp
+  · simp at h
+
+theorem control_call_covers (b : List Nat) (c : CryptoCall) (h : controlCallOfWire b = some c) :
+    c.aad ++ c.body ++ c.tag = b := by
+  unfold controlCallOfWire at h
+  split at h
+  · rename_i v hd
+    have hc := decodeControl_consumes b [] v hd
+    simp only [controlOpenCall, Option.some.injEq] at h
+    rw [← h, hc]; simp
+  · simp at h
+
+theorem secret_call_covers (k : SecretKind) (hk : k ≠ .unknownPathSecret) (b : List Nat) (c : CryptoCall)
+    (h : secretCallOfWire k b = some c) : c.aad ++ c.body ++ c.tag = b := by
+  unfold secretCallOfWire at h
+  split at h
+  · rename_i v hd
+    obtain ⟨hc, _, hkind⟩ := decodeSecret_consumes k b [] v hd
+    unfold secretOpenCall at h
+    rw [hkind] at h
+    cases k with
+    | unknownPathSecret => exact absurd rfl hk
+    | staleKey => simp only [Option.some.injEq] at h; rw [← h, hc]; simp
+    | replayDetected => simp only [Option.some.injEq] at h; rw [← h, hc]; simp
+  · simp at h
+
+theorem stream_call_covers (b : List Nat) (c : CryptoCall) (h : streamCallOfWire false b = some c) :
+    c.aad ++ c.body ++ c.tag = b := by
+  unfold streamCallOfWire at h
+  split at h
+  · rename_i v hd
+    have hc := decodeStream_consumes b [] v hd
+    simp only [Bool.false_or] at h
+    split at h
+    · rename_i hpn
+      have hne : (v.origPn != v.pn) = false := by simp at hpn; simp [hpn]
+      unfold streamOpenCall at h
+      simp only [hne, Bool.false_eq_true, if_false] at h
+      split at h
+      · split at h
+        · rename_i he
+          simp only [Except.toOption, Option.some.injEq] at h
+          have : v.payload = [] := by simpa using he
+          rw [← h, hc, this]; simp
+        · simp [Except.toOption] at h
+      · split at h
+        · simp [Except.toOption] at h
+        · simp only [Except.toOption, Option.some.injEq] at h
+          rw [← h, hc]; simp
+    · simp at h
+  · simp at h
+
+/-! ### the tag dispatcher picks the right decoder for every encoded packet -/
+
+theorem roundtrip_any_stream (i : StreamIn) (wf : StreamWF i) (rest : List Nat) :
+    ∃ v, decodeAny (encodeStream i ++ rest) = .ok (.stream v, rest) ∧ v.toIn = i := by
+  obtain ⟨v, hd, hi, _⟩ := roundtrip_stream i wf rest
+  have hs := streamTagBits_spec i.keyPhase (decide (i.controlData.length > 0)) i.finalOffset.isSome
+      (decide (i.appHeader.length > 0)) i.sourceQueueId.isSome i.recovery
+  rw [← streamTagOf_eq] at hs
+  have hcons : ∃ X, encodeStream i ++ rest = streamTagOf i :: X := by
+    simp [encodeStream, encStreamHeader, encStreamFixed]
+  obtain ⟨X, hX⟩ := hcons
+  refine ⟨v, ?_, hi⟩
+  rw [hX] at hd ⊢
+  unfold decodeAny
+  simp only [hs.1, hs.2.1, and_self, if_true, hd]
+
+theorem roundtrip_any_datagram (i : DatagramIn) (wf : DatagramWF i) (rest : List Nat) :
+    ∃ v, decodeAny (encodeDatagram i ++ rest) = .ok (.datagram v, rest) ∧ v.toIn = i := by
+  obtain ⟨v, hd, hi, _⟩ := roundtrip_datagram i wf rest
+  have hs := datagramTagBits_spec i.pn.isSome (decide (i.appHeader.length > 0)) i.nect.isSome i.keyPhase
+  rw [← datagramTagOf_eq] at hs
+  have hcons : ∃ X, encodeDatagram i ++ rest = datagramTagOf i :: X := by
+    simp [encodeDatagram, encDatagramHeader, encDatagramFixed]
+  obtain ⟨X, hX⟩ := hcons
+  refine ⟨v, ?_, hi⟩
+  rw [hX] at hd ⊢
+  unfold decodeAny
+  have h1 := hs.1; have h2 := hs.2.1
+  unfold DatagramTag.min at h1; unfold DatagramTag.max at h2
+  have n1 : ¬ (StreamTag.min ≤ datagramTagOf i ∧ datagramTagOf i ≤ StreamTag.max) := by
+    unfold StreamTag.max; omega
+  have p2 : DatagramTag.min ≤ datagramTagOf i ∧ datagramTagOf i ≤ DatagramTag.max := by
+    unfold DatagramTag.min DatagramTag.max; omega
+  simp only [n1, p2.1, p2.2, and_self, if_false, if_true, hd]
+
+theorem roundtrip_any_control (i : ControlIn) (wf : ControlWF i) (rest : List Nat) :
+    ∃ v, decodeAny (encodeControl i ++ rest) = .ok (.control v, rest) ∧ v.toIn = i := by
+  obtain ⟨v, hd, hi, _⟩ := roundtrip_control i wf rest
+  have hs := controlTagBits_spec i.sourceQueueId.isSome i.streamId.isSome (decide (i.appHeader.length > 0))
+  rw [← controlTagOf_eq] at hs
+  have hcons : ∃ X, encodeControl i ++ rest = controlTagOf i :: X := by
+    simp [encodeControl, encControlHeader, encControlFixed]
+  obtain ⟨X, hX⟩ := hcons
+  refine ⟨v, ?_, hi⟩
+  rw [hX] at hd ⊢
+  unfold decodeAny
+  have h1 := hs.1; have h2 := hs.2.1
+  unfold ControlTag.min at h1; unfold ControlTag.max at h2
+  have n1 : ¬ (StreamTag.min ≤ controlTagOf i ∧ controlTagOf i ≤ StreamTag.max) := by
+    unfold StreamTag.max; omega
+  have n2 : ¬ (DatagramTag.min ≤ controlTagOf i ∧ controlTagOf i ≤ DatagramTag.max) := by
+    unfold DatagramTag.max; omega
+  have p3 : ControlTag.min ≤ controlTagOf i ∧ controlTagOf i ≤ ControlTag.max := by
+    unfold ControlTag.min ControlTag.max; omega
+  simp only [n1, n2, p3.1, p3.2, and_self, if_false, if_true, hd]
+
+theorem roundtrip_any_secret (i : SecretIn) (wf : SecretWF i) (rest : List Nat) :
+    ∃ v, decodeAny (encodeSecret i ++ rest) = .ok (.secret v, rest) ∧ v.toIn = i := by
+  obtain ⟨v, hd, hi, _⟩ := roundtrip_secret i wf rest
+  have hcons : ∃ X, encodeSecret i ++ rest = secretTagOf i.kind i.queueId.isSome :: X := by
+    simp [encodeSecret, encSecretHeader]
+  obtain ⟨X, hX⟩ := hcons
+  refine ⟨v, ?_, hi⟩
+  rw [hX] at hd ⊢
+  unfold decodeAny
+  cases hk : i.kind <;> cases hq : i.queueId.isSome <;> rw [hk, hq] at hd <;>
+    (simp [secretTagOf, SecretKind.tag, SecretTag.unknownPathSecret, SecretTag.staleKey, SecretTag.replayDetected,
+      SecretTag.hasQueueId] at hd) <;>
+    simp [secretTagOf, SecretKind.tag, SecretTag.unknownPathSecret, SecretTag.staleKey, SecretTag.replayDetected,
+      SecretTag.hasQueueId, StreamTag.min, StreamTag.max, DatagramTag.min, DatagramTag.max, ControlTag.min, ControlTag.max, hd]
+
+/-! ### the dispatcher: consumption and totality -/
+
+/-- the wire bytes a decoded packet occupied -/
+def AnyView.wire : AnyView → List Nat
+  | .stream v => v.header ++ v.payload ++ v.authTag
+  | .datagram v => v.header ++ v.payload ++ v.authTag
+  | .control v => v.header ++ v.authTag
+  | .secret v => v.header ++ v.authTag
+
+theorem decodeAny_consumes (b r : List Nat) (v : AnyView) (h : decodeAny b = .ok (v, r)) : b = AnyView.wire v ++ r := by
+  unfold decodeAny at h
+  split at h
+  · cases h
+  · repeat' split at h
+    all_goals try (cases h; done)
+    all_goals (
+      simp only [Except.ok.injEq, Prod.mk.injEq] at h
+      obtain ⟨hv, hr⟩ := h
+      subst hv hr
+      rename_i hd
+      first
+        | exact decodeStream_consumes _ _ _ hd
+        | exact (decodeDatagram_consumes _ _ _ hd).1
+        | exact decodeControl_consumes _ _ _ hd
+        | exact (decodeSecret_consumes _ _ _ _ hd).1)
+
+theorem decode_total (b : List Nat) :
+    (∃ v r, decodeAny b = .ok (v, r)) ∨ decodeAny b = .error .eof ∨ decodeAny b = .error .invariant := by
+  cases h : decodeAny b with
+  | ok x => exact Or.inl ⟨x.1, x.2, rfl⟩
+  | error e => cases e <;> simp
 
 end Quic.Proofs.DcPackets
